@@ -150,6 +150,8 @@ def _annotate(op, anns):
     return op
 
 
+SKIP_KINDS_DEFAULT = ("Sparse", "ConvolveND")   # constructors raise NumpyNotImplementedError / need jax
+
 VARIADIC = {"Product", "Sum", "Kronecker", "KronSum", "BlockDiag"}
 
 
@@ -276,6 +278,11 @@ class RuleRunner:
                 kinds = param_kinds(sig)
             except Exception as e:
                 self._ob_unsupported(sig, "param", f"{type(e).__name__}: {e}")
+                continue
+            skip = set(self.spec.get("skip_kinds", SKIP_KINDS_DEFAULT))
+            if any(k[0] == "op" and k[1] in skip for alts in kinds for k in alts):
+                self.chk.extra.setdefault("rules_out_of_scope", []).append(
+                    f"{self.fname}{_sigstr(sig)}: kind not constructible on the installed NumPy backend (sparse_csr / jax only)")
                 continue
             self.chk.under_contract(f"{self.fname}{_sigstr(sig)}", module=getattr(sig.implementation, "__module__", "?"))
             for choice, cfg in self.configs(sig, kinds):
